@@ -447,6 +447,12 @@ func GenHistory(r *rand.Rand, o GenOpts) *History {
 			if !o.Positive && r.Intn(4) == 0 {
 				s.Bits = r.Uint32()
 			}
+			if !o.Positive && r.Intn(5) == 0 {
+				// difficulty encodings around the 256-bit boundary of the target (work 1 / work 0) and tiny targets
+				edge := []uint32{0x2100ffff, 0x21008000, 0x21007fff, 0x22000080, 0x2200007f, 0x220000ff, 0x21010000, 0x23000001,
+					0xff7fffff, 0x01010000, 0x02008000, 0x03000001, 0x04000001, 0x00ffffff, 0x01800000, 0x20000001}
+				s.Bits = edge[r.Intn(len(edge))]
+			}
 		}
 		subs = append(subs, s)
 		ids = append(ids, id)
